@@ -13,6 +13,8 @@
 package main
 
 import (
+	"encoding/json"
+	"errors"
 	"fmt"
 	"go/ast"
 	"go/parser"
@@ -24,16 +26,24 @@ import (
 	"sort"
 	"strconv"
 	"strings"
+	"sync/atomic"
 	"unsafe"
 
 	"0chain.net/chaincore/block"
 	"0chain.net/chaincore/chain"
 	cstate "0chain.net/chaincore/chain/state"
+	"0chain.net/chaincore/smartcontract"
+	sci "0chain.net/chaincore/smartcontractinterface"
 	"0chain.net/chaincore/transaction"
+	"0chain.net/core/encryption"
 	"0chain.net/smartcontract/minersc"
 	"0chain.net/smartcontract/partitions"
 	"0chain.net/smartcontract/stakepool"
 	"0chain.net/smartcontract/storagesc"
+	"context"
+	"net/url"
+
+	"github.com/0chain/common/core/currency"
 	"github.com/0chain/common/core/statecache"
 	"github.com/0chain/common/core/util"
 	"verifharness/lib/corr"
@@ -263,9 +273,182 @@ func (w *world) exec(f []string) string {
 	return "bad-op"
 }
 
+
+// ---- part 1b: the same caches driven by the real Chain.UpdateState ----------------------------------------
+//
+// A test contract registered in smartcontract.ContractMap writes / deletes / reads one cacheable node per call and
+// may fail after writing; transactions go through engine.World.Exec = Chain.UpdateState (transaction cache created,
+// committed only when the transaction is applied, re-created after a chargeable contract error), blocks through
+// BlockCache.Commit. Every world uses its own key prefix and its own block hashes (the chain's StateCache is global).
+
+const c07Address = "c07c07c07c07c07c07c07c07c07c07c07c07c07c07c07c07c07c07c07c07c07c0"
+
+type c07Contract struct{}
+
+type c07Input struct {
+	Key string `json:"key"`
+	V   int    `json:"v"`
+}
+
+func (c07Contract) Execute(t *transaction.Transaction, fn string, input []byte, b cstate.StateContextI) (string, error) {
+	var in c07Input
+	if err := json.Unmarshal(input, &in); err != nil {
+		return "", err
+	}
+	switch fn {
+	case "write", "writefail":
+		if _, err := b.InsertTrieNode(in.Key, &cval{N: in.V}); err != nil {
+			return "", err
+		}
+		if fn == "writefail" {
+			return "", errors.New("c07: deliberate failure after the write")
+		}
+		return "written", nil
+	case "del":
+		if _, err := b.DeleteTrieNode(in.Key); err != nil {
+			return "", errors.New("c07: delete failed: " + err.Error())
+		}
+		return "deleted", nil
+	case "read":
+		var v cval
+		switch err := b.GetTrieNode(in.Key, &v); err {
+		case nil:
+			return strconv.Itoa(v.N), nil
+		case util.ErrValueNotPresent:
+			return "absent", nil
+		default:
+			return "", err
+		}
+	}
+	return "", errors.New("c07: unknown function")
+}
+func (c07Contract) GetHandlerStats(ctx context.Context, params url.Values) (interface{}, error) {
+	return nil, nil
+}
+func (c07Contract) GetExecutionStats() map[string]interface{} { return map[string]interface{}{} }
+func (c07Contract) GetName() string                           { return "c07verif" }
+func (c07Contract) GetAddress() string                        { return c07Address }
+func (c07Contract) GetCostTable(cstate.StateContextI) (map[string]int, error) {
+	return map[string]int{"write": 1, "writefail": 1, "del": 1, "read": 1}, nil
+}
+
+var _ sci.SmartContractInterface = c07Contract{}
+
+var worldSeq int64
+
+type eworld struct {
+	w      *engine.World
+	id     int64
+	client engine.Client
+	nonce  int64
+}
+
+func (e *eworld) key(k int) string { return fmt.Sprintf("c07w%dk%d", e.id, k) }
+
+// nextBlock is engine.World.NextBlock with a block hash that is unique in this process
+func (e *eworld) nextBlock() {
+	w := e.w
+	if w.B != nil {
+		w.B.ClientStateHash = w.State.GetRoot()
+		w.B.SetStateStatus(block.StateSuccessful)
+		w.BC.Commit()
+		w.Prev = w.B
+	}
+	w.Round++
+	b := block.NewBlock("", w.Round)
+	b.Hash = encryption.Hash(fmt.Sprintf("c07-world-%d-block-%d", e.id, w.Round))
+	b.PrevHash = w.Prev.Hash
+	b.PrevBlock = w.Prev
+	b.CreationDate = w.Now
+	b.MinerID = engine.NewClient("miner0").ID
+	st := block.CreateStateWithPreviousBlock(w.Prev, w.NDB, w.Round)
+	b.ClientState = st
+	w.B = b
+	w.State = st
+	w.BC = statecache.NewBlockCache(w.C.GetStateCache(), statecache.Block{Round: b.Round, Hash: b.Hash, PrevHash: b.PrevHash})
+}
+
+func newEWorld() *eworld {
+	cl := engine.NewClient("c07client")
+	w, err := engine.NewWorld(map[string]currency.Coin{cl.ID: 1000e10}, nil)
+	if err != nil {
+		panic(err)
+	}
+	e := &eworld{w: w, id: atomic.AddInt64(&worldSeq, 1), client: cl}
+	// drop the block NewWorld opened (its hash is derived from a pointer) and open ours
+	w.B, w.Round = nil, 0
+	w.Prev.Hash = encryption.Hash(fmt.Sprintf("c07-world-%d-genesis", e.id))
+	e.nextBlock()
+	return e
+}
+
+func (e *eworld) call(fn string, k, v int) (*transaction.Transaction, error) {
+	in, _ := json.Marshal(c07Input{Key: e.key(k), V: v})
+	e.nonce++
+	t := e.w.Txn(e.client, c07Address, 0, 0, e.nonce, transaction.TxnTypeSmartContract, fn, string(in))
+	_, err := e.w.Exec(t)
+	if err != nil {
+		e.nonce--
+	}
+	return t, err
+}
+
+func (e *eworld) exec(f []string) string {
+	args := make([]int, 0, 2)
+	for _, a := range f[1:] {
+		n, ok := num(a)
+		if !ok {
+			return "bad-op"
+		}
+		args = append(args, n)
+	}
+	need := map[string]int{"eblock": 0, "ewrite": 2, "ewritefail": 2, "edel": 1, "eread": 1}
+	if n, ok := need[f[0]]; !ok || n != len(args) {
+		return "bad-op"
+	}
+	status := func(t *transaction.Transaction, err error) string {
+		switch {
+		case err != nil:
+			return "error:" + err.Error()
+		case t.Status == transaction.TxnSuccess:
+			return "ok"
+		default:
+			return "failed"
+		}
+	}
+	switch f[0] {
+	case "eblock":
+		e.nextBlock()
+		return "ok"
+	case "ewrite":
+		return status(e.call("write", args[0], args[1]))
+	case "ewritefail":
+		return status(e.call("writefail", args[0], args[1]))
+	case "edel":
+		return status(e.call("del", args[0], 0))
+	case "eread":
+		t, err := e.call("read", args[0], 0)
+		if s := status(t, err); s != "ok" {
+			return s
+		}
+		var v cval
+		ref := "absent"
+		switch err := e.w.State.GetNodeValue(util.Path(encryption.Hash(e.key(args[0]))), &v); err {
+		case nil:
+			ref = strconv.Itoa(v.N)
+		case util.ErrValueNotPresent:
+		default:
+			ref = "error:" + err.Error()
+		}
+		return showRead(t.TransactionOutput, ref)
+	}
+	return "bad-op"
+}
+
 func impl(ops []string) []string {
 	outs := make([]string, len(ops))
 	var w *world
+	var ew *eworld
 	for i, op := range ops {
 		f := strings.Fields(op)
 		func() {
@@ -279,7 +462,17 @@ func impl(ops []string) []string {
 				outs[i] = "bad-op"
 			case len(f) == 1 && f[0] == "reset":
 				w = newWorld()
+				ew = nil
 				outs[i] = "ok"
+			case len(f) == 1 && f[0] == "ereset":
+				ew = newEWorld()
+				outs[i] = "ok"
+			case f[0] == "eblock" || f[0] == "ewrite" || f[0] == "ewritefail" || f[0] == "edel" || f[0] == "eread":
+				if ew == nil {
+					outs[i] = "bad"
+					return
+				}
+				outs[i] = ew.exec(f)
 			case f[0] == "typecheck" && len(f) == 3:
 				seed, ok := num(f[2])
 				if !ok {
@@ -626,7 +819,34 @@ func scanCacheableTypes() ([]string, error) {
 
 // ---- generator ---------------------------------------------------------------------------------------
 
+func genEngine(r *rand.Rand, thorough bool) []string {
+	ops := []string{"reset", "ereset"}
+	n := 20 + r.Intn(40)
+	if thorough {
+		n = 20 + r.Intn(150)
+	}
+	nk := 2 + r.Intn(4)
+	for len(ops) < n {
+		switch x := r.Intn(20); {
+		case x < 6:
+			ops = append(ops, fmt.Sprintf("ewrite %d %d", r.Intn(nk), r.Intn(1000)))
+		case x < 10:
+			ops = append(ops, fmt.Sprintf("ewritefail %d %d", r.Intn(nk), r.Intn(1000)))
+		case x < 12:
+			ops = append(ops, fmt.Sprintf("edel %d", r.Intn(nk)))
+		case x < 18:
+			ops = append(ops, fmt.Sprintf("eread %d", r.Intn(nk)))
+		default:
+			ops = append(ops, "eblock")
+		}
+	}
+	return ops
+}
+
 func gen(r *rand.Rand, thorough bool, i int) []string {
+	if i%5 == 4 {
+		return genEngine(r, thorough)
+	}
 	ops := []string{"reset"}
 	n := 40 + r.Intn(80)
 	if thorough {
@@ -759,6 +979,7 @@ func oracle(ops, outs []string) *corr.Violation {
 	var cur *ex
 	nonlinear := false // a block was begun on, or a read was made at, a block that already has a computed child
 	discarded := map[int]map[int]bool{}
+	etrie, efailed := refTrie{}, map[int]map[int]bool{}
 	show := func(t refTrie, k int) string {
 		if v, ok := t[k]; ok {
 			return strconv.Itoa(v)
@@ -878,6 +1099,50 @@ func oracle(ops, outs []string) *corr.Violation {
 			if v := checkRead(arg(1), tries[arg(1)], arg(2)); v != nil {
 				return v
 			}
+		case "ereset":
+			etrie, efailed = refTrie{}, map[int]map[int]bool{}
+		case "eblock":
+		case "ewrite":
+			if out != "ok" {
+				return mk(i, "engine-write-failed", "a contract call that only inserts a node must be applied")
+			}
+			etrie[arg(1)] = arg(2)
+		case "ewritefail":
+			if out != "failed" {
+				return mk(i, "engine-failure-not-charged", "a contract error after a write is a chargeable error: status TxnError")
+			}
+			if efailed[arg(1)] == nil {
+				efailed[arg(1)] = map[int]bool{}
+			}
+			if v, ok := etrie[arg(1)]; !ok || v != arg(2) {
+				efailed[arg(1)][arg(2)] = true
+			}
+		case "edel":
+			_, in := etrie[arg(1)]
+			if (out == "ok") != in {
+				return mk(i, "engine-delete-answer", fmt.Sprintf("key present in the reference trie: %v", in))
+			}
+			delete(etrie, arg(1))
+		case "eread":
+			w := strings.Fields(out)
+			got, ref := "", ""
+			switch {
+			case len(w) == 4 && w[0] == "val" && w[2] == "ref":
+				got, ref = w[1], w[3]
+			case len(w) == 3 && w[0] == "absent" && w[1] == "ref":
+				got, ref = "absent", w[2]
+			default:
+				return mk(i, "unparsable-read", "read answers must be 'val X ref Y' or 'absent ref Y'")
+			}
+			if want := show(etrie, arg(1)); ref != want {
+				return mk(i, "trie-read-differs-from-reference", fmt.Sprintf("the trie holds %s, the reference map %s", ref, want))
+			}
+			if got != ref {
+				if efailed[arg(1)][atoiOr(got, -1)] {
+					return mk(i, "failed-txn-left-trace", fmt.Sprintf("a contract read %s through the caches, the trie holds %s: the value was written by a transaction that failed", got, ref))
+				}
+				return mk(i, "cached-read-differs-from-trie", fmt.Sprintf("a contract read %s through the caches, the trie holds %s", got, ref))
+			}
 		case "typecheck":
 			if out != "ok" {
 				return mk(i, "type-"+f[1]+"-"+strings.ReplaceAll(strings.TrimPrefix(out, "fail "), " ", "-"), "Clone/CopyFrom of this cacheable type loses data or shares memory with the cached object")
@@ -897,6 +1162,7 @@ func atoiOr(s string, d int) int {
 
 func main() {
 	engine.Setup()
+	smartcontract.ContractMap[c07Address] = c07Contract{}
 	found, err := scanCacheableTypes()
 	if err != nil {
 		fmt.Fprintln(os.Stderr, "scan of cacheable types failed:", err)
@@ -935,11 +1201,15 @@ func main() {
 		[]string{"reset", "begin 1 0", "tx", "ins 7 10", "commit", "bcommit", "begin 2 1", "bcommit", "begin 3 2", "tx", "ins 7 11", "commit", "bcommit",
 			"begin 4 2", "tx", "get 7", "commit", "bcommit", "begin 5 3", "tx", "get 7", "probe 7"},
 	)
+	fixed = append(fixed,
+		// through the real Chain.UpdateState: a failing contract call writes first; the next read must not see it
+		[]string{"reset", "ereset", "ewrite 1 10", "eread 1", "ewritefail 1 11", "eread 1", "eblock", "eread 1", "ewritefail 2 5", "eread 2",
+			"edel 1", "eread 1", "edel 1", "eblock", "eread 1", "ewrite 1 7", "eblock", "eblock", "eread 1"})
 	corr.Main(corr.Prop{
 		ID: "C07", Model: "C07", Gen: gen, Impl: impl, Oracle: oracle, Serial: false,
 		Cases: func(th bool) int {
 			if th {
-				return 6000
+				return 5000
 			}
 			return 500
 		},
